@@ -94,7 +94,12 @@ func ResolveRelativeSource(a, b Source) (Source, error) {
 	case LocalSource:
 		aRaw := a.relPath
 		new := path.Join(aRaw, bRaw)
-		if !looksLikeLocalSource(new) {
+		switch {
+		case new == ".":
+			new = "./" // canonical spelling, as required by ParseLocalSource
+		case new == "..":
+			new = "../"
+		case !looksLikeLocalSource(new):
 			new = "./" + new // preserve LocalSource's prefix invariant
 		}
 		return LocalSource{relPath: new}, nil
